@@ -140,6 +140,9 @@ def one(ctx, data, meta=None, opts=((False, True), (False, False))):
             for path, ok in its.items():
                 ctx.count('itemsOK holds for the part (hypothesis of C02_siblings: paragraphs, regular tables, ignored markup, groups of stray inline content)' if ok is True
                           else 'itemsOK false for the part (C02_siblings does not apply: nested tables, text boxes, content controls, ...)')
+            for path, ok in (v.get('<partok>') or {}).items():
+                ctx.count('partItemsOK holds (all hypotheses of C02_part_decidable: wrapper root, admissible children, no notes)' if ok is True
+                          else 'partItemsOK false for the part')
             if v.get('<groups>'): ctx.count('groups of inline content outside paragraphs (C02_stray_group)', v['<groups>'])
     except Exception:
         pass
